@@ -6,6 +6,7 @@ import CattrsModel.Props.C10
 import CattrsModel.GenHook.NestedRT2
 import CattrsModel.GenHook.NestedKeys
 import CattrsModel.GenHook.NestedForbid2
+import CattrsModel.GenHook.OmitFalsy
 /-!
 # C09 — customised generated hooks: emitted key set, round trip, generation never fails
 
@@ -595,5 +596,85 @@ example : ∃ y, stTy C09Ex.nestWorld 9 (some (.cls 2)) (unTy C09Ex.nestWorld 9 
   C09_roundtrip_nested _ (by decide) C09Ex.nestWorld_WFE 6 _ _ C09Ex.nestValue_conf 9 (by omega)
 
 end NestedExample
+
+/-! ## `omit_if_default` is about `==` to the default, for every value -- falsy ones included (round 3) -/
+
+/-- **Absent exactly when `omit_if_default` applies and the value `==` the default.**  For a consistent customisation and
+any handled attribute of any instance: its key is among the emitted keys iff it is NOT the case that `omit_if_default`
+applies to it and its value `==` the default (the constant, or what the factory returns).  Nothing else about the value
+matters -- in particular not its truthiness. -/
+theorem C09_omit_iff_equals_default (frozen : Bool) (hc : HookCfg) (attrs : List Attr) (fs : List (String × Obj))
+    (hcons : ConsistentCls frozen hc attrs = true) (p : Attr × String × Obj) (hp : p ∈ attrs.zip fs)
+    (hi : included hc p.1 = true) :
+    keyName hc p.1 ∈ expectedKeys hc attrs fs ↔ ¬ (oidApplies hc p.1 = true ∧ defaultEq p.1 p.2.2 = true) := by
+  obtain ⟨hK, hN, -⟩ := consistentCls_unpack hcons
+  rw [C09_keys_spec]
+  constructor
+  · rintro ⟨q, hq, hqi, hqk, hqn⟩
+    have hq1 : q.1 ∈ attrs.filter (included hc) := List.mem_filter.mpr ⟨(List.of_mem_zip hq).1, hqi⟩
+    have hp1 : p.1 ∈ attrs.filter (included hc) := List.mem_filter.mpr ⟨(List.of_mem_zip hp).1, hi⟩
+    have h1 : q.1 = p.1 := nodup_map_inj _ _ hK _ hq1 _ hp1 hqk
+    have h2 : q.2 = p.2 := by
+      have hq' : (p.1, q.2) ∈ attrs.zip fs := by rw [← h1]; exact hq
+      exact zip_functional attrs fs p.1 q.2 p.2 (nodup_of_nodup_map _ _ hN) hq' hp
+    have : q = p := Prod.ext h1 h2
+    rw [this] at hqn; exact hqn
+  · intro h
+    exact ⟨p, hp, hi, rfl, h⟩
+
+/-- **A value that is not `==` the default is kept and restored, whatever else it is.**  Under the hypotheses of
+`C09_roundtrip`: if the value of a handled attribute is not `==` its default (e.g. `None`, `0`, `""`, `()` or `{}` where the
+default is `Factory(list)`), its key is emitted and the rebuilt instance holds what the attribute's handlers restore from
+that value -- not the default. -/
+theorem C09_not_default_survives (un : UnFn) (st : StFn) (ci : Nat) (c : GCls) (fs : List (String × Obj))
+    (rt : Attr → Obj → Obj) (forbid : Bool)
+    (hcons : ConsistentCls c.frozen c.hc c.attrs = true) (hlen : fs.length = c.attrs.length)
+    (hrt : ∀ p ∈ c.attrs.zip fs, included c.hc p.1 = true → GenHook.emitted c.hc p.1 p.2.2 = true → (ovOf c.hc p.1).sh = none →
+      st p.1.ty (un p.1.ty p.2.2) = .ok (rt p.1 p.2.2))
+    (p : Attr × String × Obj) (hp : p ∈ c.attrs.zip fs) (hi : included c.hc p.1 = true)
+    (hne : defaultEq p.1 p.2.2 = false) :
+    keyName c.hc p.1 ∈ expectedKeys c.hc c.attrs fs ∧
+    ∃ fs', hstClsWith forbid st ci c (hunCls un c.hc c.attrs fs) = .ok (.inst ci fs') ∧
+      (p.1.name, rtWithHooks c.hc rt p.1 p.2.2) ∈ fs' := by
+  refine ⟨(C09_omit_iff_equals_default c.frozen c.hc c.attrs fs hcons p hp hi).mpr (by simp [hne]), _,
+    C09_roundtrip un st ci c fs rt forbid hcons hlen hrt, ?_⟩
+  rw [restored_eq_map]
+  refine List.mem_map.mpr ⟨p, hp, ?_⟩
+  simp [hi, GenHook.emitted, hne]
+
+/-- **What `==` an empty-collection factory default**: with `factory=list` the attribute is dropped iff the value IS an
+empty list; with `factory=dict` iff it is an empty dict (`pyEqD_empty_tuple` / `pyEqD_empty_set`: likewise for `tuple`,
+and for `set` / `frozenset` up to the class of the empty set). -/
+theorem C09_empty_factory_default (hc : HookCfg) (a : Attr) (v : Obj) (ha : oidApplies hc a = true) :
+    (a.dflt = .factory (.coll .list []) → (GenHook.emitted hc a v = false ↔ v = .coll .list [])) ∧
+    (a.dflt = .factory (.dict []) → (GenHook.emitted hc a v = false ↔ v = .dict [])) := by
+  constructor <;> intro hd
+  · simp [GenHook.emitted, ha, defaultEq, hd, Dflt.value?, pyEqD_empty_list]
+  · simp [GenHook.emitted, ha, defaultEq, hd, Dflt.value?, pyEqD_empty_dict]
+
+section FalsyExamples
+def C09Ex.fAttr : Attr :=
+  { name := "tags", alias := "tags", ty := some (.opt (.coll .list .int)), dflt := .factory (.coll .list []), init := true,
+    required := true, kwOnly := false }
+def C09Ex.fHc : HookCfg := { ovs := [], useAlias := false, inclInitFalse := false, oid := true, forbid := false, detailed := true }
+def C09Ex.fCls : GCls := { kind := .attrs, frozen := false, attrs := [C09Ex.fAttr], hc := C09Ex.fHc }
+
+/-- non-vacuity of `C09_not_default_survives`: `tags=None` under `Factory(list)` and converter-wide omit_if_default is emitted
+and restored; `tags=[]` is dropped and comes back as the default -/
+example : ConsistentCls false C09Ex.fHc [C09Ex.fAttr] = true := by decide
+example : defaultEq C09Ex.fAttr .none = false := by decide
+example : hunCls C09Ex.idUn C09Ex.fHc [C09Ex.fAttr] [("tags", .none)] = .dict [(.str "tags", .none)] := by rfl
+example : hstClsWith false C09Ex.idSt 0 C09Ex.fCls (hunCls C09Ex.idUn C09Ex.fHc [C09Ex.fAttr] [("tags", .none)])
+    = .ok (.inst 0 [("tags", .none)]) := by rfl
+example : hunCls C09Ex.idUn C09Ex.fHc [C09Ex.fAttr] [("tags", .coll .list [])] = .dict [] := by rfl
+end FalsyExamples
+
+/-- **Negative witness (what the seeded regression does)**: a guard by truthiness (`if instance.x:`) instead of
+`!= factory()` agrees with the specification on the default itself and on truthy values, but drops every falsy value that
+is not the default: `None`, `0`, `0.0`, `False`, `""`, `b""`, `()`, `set()`, `{}` under `Factory(list)`. -/
+theorem C09_truthiness_guard_witness :
+    ∀ v ∈ [Obj.none, .int 0, .flt 0, .bool false, .str "", .bytes "", .coll .tuple [], .coll .set [], .dict []],
+      GenHook.emitted C09Ex.fHc C09Ex.fAttr v = true ∧ emittedByTruthiness C09Ex.fHc C09Ex.fAttr v = false := by
+  decide
 
 end CattrsModel
